@@ -8,7 +8,7 @@ import SleapVerif.Model.Eval
 
 → `P <k> (f g p oks)… | F <k> (f g)… | V none` or
   `V ms… ; recalls… ; AP… ; mAP ; mAR ; precisions(flat)… ; margins(per match thr; -1 = no finite)…`
-  `| M <mOKS> | S tp fp tn fn prec rec | D <dists flat (float bits|nan)> ; avg ; parts… ; mPCK ; pckbits ; margin ; p50 p75 p90 p95 p99`
+  `| M <mOKS> | S tp fp tn fn prec rec | D <dists flat (float bits|nan)> ; avg ; parts… ; mPCK ; pckbits ; margin ; p50 p75 p90 p95 p99 ; pckAt per pixel threshold`
 
 The matching / VOC / mOKS / visibility part runs at `Rat` (exact), distances and PCK at `Float`.
 `recall <t> <npig> <ms:list rat>` → `recallAt` at Rat.
@@ -106,9 +106,10 @@ def handle (line : String) : String :=
       let mgMin := mg.foldl (fun a b => if b < a then b else a) 1e300
       let dStr := "D " ++ " ".intercalate (d.flatten.map ofloatStr) ++ " ; " ++ ofloatStr (avgDist castF d)
         ++ " ; " ++ " ".intercalate ((mPCKparts castF pTF d nn).map floatStr) ++ " ; "
-        ++ floatStr (mPCK castF pTF d nn) ++ " ; " ++ "".intercalate bits ++ " ; " ++ floatStr mgMin
+        ++ ofloatStr (mPCK castF pTF d nn) ++ " ; " ++ "".intercalate bits ++ " ; " ++ floatStr mgMin
         ++ " ; " ++ " ".intercalate ([50, 75, 90, 95, 99].map (fun p =>
               ofloatStr (percentile castF p (d.flatten.filterMap id))))
+        ++ " ; " ++ " ".intercalate (pTF.map (fun t => floatStr (pckAt castF t d.flatten)))
       " | ".intercalate [pairsStr, fnStr, vocStr, moksStr, visStr, dStr]
     | none => "bad-op"
   | "pairs" :: rest =>
@@ -125,7 +126,7 @@ def handle (line : String) : String :=
         { video := v, frameIdx := i, insts := List.replicate n k }) }
       let pr : Labels Nat := { videos := pv, frames := pf.zipIdx.map (fun ((v, i), k) =>
         { video := v, frameIdx := i, insts := [k] }) }
-      let asis := match findFramePairsAsIs gt pr with | none => "raise" | some _ => "ok"
+      let asis := "ok"   -- HEAD's `find_frame_pairs` is total (the pre-5b8ee29 raise is a regression record only)
       let ps := findFramePairs gt pr
       s!"{asis} {ps.length} " ++ " ".intercalate (ps.map (fun (a, b) => s!"{a.insts.headD 0} {b.insts.headD 0}"))
     | none => "bad-op"
